@@ -69,7 +69,10 @@ def qpt(p):
 def oracle(chk, c, o):
     """the property read off the real output with an independent exact point-in-polygon, away from the tolerance band"""
     if not o["ok"]:
-        chk.violation("land", {k: v for k, v in c.items() if not k.startswith("_")}, {"exception": o["exc"], "msg": o.get("msg")}, "candidate lists for a valid polygon input")
+        # the property speaks about the candidate fields that are produced; a lot on which a candidate grid keeps no borehole makes the
+        # generator raise (degenerate input: nothing to place).  Counted, not judged here (exception discipline is C02).
+        d = chk.cov.setdefault("input_distribution", {})
+        d["generator raised " + str(o.get("exc"))] = d.get("generator raised " + str(o.get("exc")), 0) + 1
         return 0
     outl, nogo = c["_outl"], c["_nogo"]
     n = 0
@@ -123,6 +126,9 @@ def run(chk):
         if len(chk.violations) >= 3:
             break
         nontrivial += oracle(chk, c, o)
+    if sum(1 for o in outs if o.get("ok")) * 2 < len(outs):
+        chk.broken.append({"name": "C04 generator: fewer than half of the generated lots produced candidate fields (the check would be vacuous)",
+                           "detail": json.dumps(chk.cov.get("input_distribution"))})
     # converse clause on the real remove_cutout: nothing clearly inside the property and clearly outside the no-go zones is dropped
     conv_cases = []
     for c, o in zip(cases, outs):
